@@ -7,7 +7,7 @@ from checks.c01 import ASSUME
 
 def post(rep, templates, results):
     """L1: layout kernels under gosym (both pointer sizes, result/optional/struct of a type pool)."""
-    hs = [('compiler/internal/mir', 'internal/mir', ['HarnessAlignTo']),
+    hs = [('compiler/internal/mir', 'internal/mir', ['HarnessAlignTo', 'HarnessC18LayoutHistory']),
           ('compiler/internal/codegen/qbe_embeddings', 'internal/codegen/qbe_embeddings', ['HarnessC18Layout'])]
     for pkg, rel, names in hs:
         try:
